@@ -453,6 +453,73 @@ fn cost_case() -> impl Strategy<Value = CostCase> {
     .prop_map(|d| CostCase { d })
 }
 
+// ---------------------------------------------------------------------------------------------
+// the filter as driven by the trackers (configured weights, initiate + predict + update per
+// attached detection): the state stored in every track must follow the reference filter
+
+pub fn check_tracker_filter(h: &crate::gen::scenes::History) -> CaseResult {
+    use crate::gen::scenes::Op;
+    use crate::trk::Tracker;
+    let cfg = &h.cfg;
+    let mut tr = Tracker::new(cfg);
+    let rf = RefFilter::new(BoxNoise { wp: cfg.wp as f64, wv: cfg.wv as f64 });
+    let mut refs: std::collections::BTreeMap<u64, KState> = Default::default();
+    let mut updates = 0usize;
+    let mut maxlen = 0usize;
+    for (k, op) in h.ops.iter().enumerate() {
+        match op {
+            Op::Predict { scene, dets } => {
+                let dets = h.dets(dets, (k as i64 + 1) * 1000);
+                if cfg.kind.is_batch() && dets.is_empty() {
+                    continue;
+                }
+                let recs = tr.predict(*scene, &dets);
+                for (i, r) in recs.iter().enumerate() {
+                    if i >= dets.len() {
+                        break;
+                    }
+                    let z = meas_vec(&dets[i].b);
+                    let prior = match refs.get(&r.id) {
+                        Some(s) if r.length > 1 => s.clone(),
+                        _ => rf.initiate(&z),
+                    };
+                    let post = rf.update(&rf.predict(&prior), &z);
+                    updates += 1;
+                    maxlen = maxlen.max(r.length);
+                    let v = match tr.view(r.id) {
+                        Some(v) => v,
+                        None => continue,
+                    };
+                    if let Some((m, p)) = &v.state {
+                        let hgt = post.mean[4].abs().max(1e-3);
+                        for j in 0..2 {
+                            let e = ((m[j] as f64 - post.mean[j]).abs() - TOL_POS_ULP * ulp32(m[j]) as f64).max(0.0) / hgt;
+                            ensure!(e <= TOL_POS_H, "tracker-filter-mean", "op {}: track {} (length {}): state component {} is {} but the reference filter with the configured weights ({}, {}) gives {}", k, r.id, r.length, j, m[j], cfg.wp, cfg.wv, post.mean[j]);
+                        }
+                        ensure!((m[4] as f64 - post.mean[4]).abs() / hgt <= TOL_HEIGHT_H, "tracker-filter-mean", "op {}: track {}: height {} vs reference {}", k, r.id, m[4], post.mean[4]);
+                        for a in 0..10 {
+                            for b in 0..10 {
+                                let scale = (post.at(a, a) * post.at(b, b)).sqrt().max(1e-30);
+                                let e = (p[a * 10 + b] as f64 - post.at(a, b)).abs() / scale;
+                                ensure!(e <= TOL_COV_REL, "tracker-filter-cov", "op {}: track {} (length {}): covariance ({},{}) = {} but the reference filter with the configured weights ({}, {}) gives {}", k, r.id, r.length, a, b, p[a * 10 + b], cfg.wp, cfg.wv, post.at(a, b));
+                            }
+                        }
+                        // the record's predicted box is the posterior mean
+                        ensure!((r.predicted.xc - m[0]).abs() <= 2.0 * ulp32(m[0]) && (r.predicted.height - m[4]).abs() <= 2.0 * ulp32(m[4]), "tracker-filter-record", "op {}: record of track {} reports predicted box {:?}, the filter mean is {:?}", k, r.id, r.predicted, &m[..5]);
+                    } else {
+                        return Err(Fail::new("tracker-filter-no-state", format!("op {}: track {} has no filter state", k, r.id)));
+                    }
+                    refs.insert(r.id, post);
+                }
+            }
+            Op::Skip { scene, n } => tr.skip(*scene, *n),
+            _ => {}
+        }
+    }
+    let custom_weights = (cfg.wp - 0.05).abs() > 1e-6 || (cfg.wv - 0.00625).abs() > 1e-6;
+    Ok(CaseOk::new(updates >= 20 && custom_weights).label(cfg.kind.name()).label_if(custom_weights, "custom_weights").label_if(maxlen >= 20, "long_track"))
+}
+
 pub fn run(env: &Env, rep: &Report) {
     rep.set_rule("measurement sequences up to 300 steps (constant, linear, accelerating, jittering, growing, shrinking, rotating; coordinates reflected into 1..1e4; 1-3 predicts per step, ~8% updates skipped), weights 0.005..0.5 / 0.0005..0.05, envelope classes regular (height within x30 of the initial) and extreme (x1000); stationary objects; 1..4 independent points for the point / vector filters; distances on and around every chi-square table entry. Non-trivial: >=20 steps with non-zero innovation; for costs a d between the 2-dof and the 5-dof gate; distinct = distinct serialized case");
     rep.assume("reference: dense f64 textbook filter (oracle/kalman.rs) with the library's documented noise model; tolerances: position 5e-3 h + 4 ulp, height 2e-3 h, aspect 1e-4, angle 1e-3, covariance 2% of sqrt(P_ii P_jj), distance 1e-3 relative against the filter's own state");
@@ -474,6 +541,23 @@ pub fn run(env: &Env, rep: &Report) {
     }), env.tier.pick(3_000, 60_000), w, check_stationary);
     par_generated(rep, "points", point_seq, env.tier.pick(4_000, 100_000), w, check_point_seq);
     par_generated(rep, "cost", cost_case, env.tier.pick(60_000, 2_000_000), w, check_cost);
+    // the filter inside the trackers (weights taken from the tracker configuration)
+    {
+        use crate::trk::Kind;
+        use proptest::prelude::*;
+        let pool = IsoPool::new(&env.prop, "tracker-filter", std::time::Duration::from_secs(120));
+        let n = env.tier.pick(300, 8_000);
+        for kind in [Kind::Sort, Kind::VisualSort, Kind::BatchSort, Kind::BatchVisualSort] {
+            let strat = move || {
+                (crate::props::c13::lifetime(kind), prop_oneof![1 => Just((0.05f32, 0.00625f32)), 3 => (0.01f32..0.3, 0.001f32..0.03)]).prop_map(|(mut h, (wp, wv))| {
+                    h.cfg.wp = wp;
+                    h.cfg.wv = wv;
+                    h
+                })
+            };
+            par_generated(rep, "tracker-filter", strat, n, w, crate::props::c01::iso_check(&pool, rep));
+        }
+    }
 }
 
 pub fn replay(sub: &str, case: Value) -> Option<CaseResult> {
@@ -482,6 +566,7 @@ pub fn replay(sub: &str, case: Value) -> Option<CaseResult> {
         "stationary" => Some(replay_case(case, check_stationary, sub)),
         "points" => Some(replay_case(case, check_point_seq, sub)),
         "cost" => Some(replay_case(case, check_cost, sub)),
+        "tracker-filter" => Some(replay_case(case, check_tracker_filter, sub)),
         _ => None,
     }
 }
